@@ -20,3 +20,12 @@ package types
 //@ func (*OptOutOfAVSReq).GetSigners
 //@   requires m != nil
 //@   ensures[C10.sig.optout] len(result) == 1 && result[0] == bech32addr(m.FromAddress)
+
+// C18 (the exported genesis of a reachable state passes validation): an opted state of a registered operator with a
+// well-formed key, a hex AVS address and an opt-out height that is not before the opt-in height (both may fall into
+// the same block) is accepted.
+//@ func (GenesisState).ValidateOptedStates$1
+//@   flag pure=ParseJoinedStoreKey,IsHexAddress
+//@   flag noframe
+//@   ensures[C18.vos.accept] res_ParseJoinedStoreKey_1 == nil && len(res_ParseJoinedStoreKey_0) == 2 && has(operators, res_ParseJoinedStoreKey_0[0]) &&
+//@        state.OptInfo.OptedOutHeight >= state.OptInfo.OptedInHeight && res_IsHexAddress_0 ==> err == nil
